@@ -42,12 +42,37 @@
     `C07_decrements_le_completions` (the limit of a machine is decremented at most as often as
     completions for that machine are reported; the decrement is logged by `decrementLimit` only)
     and `C07_no_completion_no_decrement`.
+  * THE MONITOR ON THE MODEL'S OWN LOG (`Proofs/LimitLog.lean`, `LimitStep.lean`, `LimitMonitor.lean`;
+    any machines, any oracle, any batch, any state; the only hypothesis is that the call ends without
+    a fault, which is exactly when the driver hands a call to the monitor):
+    `C07_log_accepted`: the ghost log segment of a call, read chronologically, passes the monitor's
+    walk `C07.checkLog` started from the (limit, state) pairs of the snapshot before the call: a
+    sampled state different from the tracked one is DIRECTLY followed by the assignment of a fresh
+    limit to that machine (after the draw of the limit distribution, if any), a self-transition is
+    not; every decrement logs the tracked limit minus one (0 stays 0) and is DIRECTLY followed by the
+    LimitReached delivery to that machine exactly when it logs 0 in a state whose action carries a
+    limit (in plain terms: `C07_log_resample_exact`, `C07_log_decrement_exact`).
+    `C07_log_own_completions` (per call, decrements of `j` <= completions reported for `j`),
+    `C07_log_single_completion` (single-event call reporting a completion for a live machine: its
+    pre-signal log holds no decrement and a change of the machine's state, or exactly one decrement
+    and no change of its state before it — whatever the kind of the completion; rests on
+    `LL.main2`: the Boolean `Changed` returned by `transition` IS the monitor's `changedState`
+    folded over the transition's log segment), `C07_log_no_limited_action` (limit 0 before the call
+    and no limit entry for the machine in the call's log: every returned action for it is a Cancel).
+    `C07_monitor_accepts_model`: hence `C07.monitor` returns `none` on the trace the model produces
+    (`LL.modelTrace`: per call the events, outcome, returned actions, snapshot and the call's log,
+    as the driver records them) for EVERY machine set, oracle, configuration and history — the
+    monitor raises no false alarm on any implementation that agrees with the model on these
+    observables, and the model satisfies the property in the monitor's own vocabulary. The
+    invariants needed (`Inv04`: one slot and one runtime per machine, slot `i` holds only actions of
+    machine `i`; the machine list never changes) are established by `Fw.init` and preserved by calls.
   The implementation is tied to this by the correspondence on (state, limit) after every call
   (tag RS), the internal log with the hook's limit entries (tag L) and `C07.monitor`.
 -/
 import MbVerif.Proofs.SafeCall
 import MbVerif.Proofs.Exhausted
 import MbVerif.Proofs.Countdown
+import MbVerif.Proofs.LimitMonitor
 
 namespace Mb.C07
 open Mb Mb.Countdown
@@ -486,6 +511,99 @@ theorem C07_no_completion_no_decrement (mi : Nat) (h : List Call) (s : Fw σ)
     ∃ l, (runCalls ρ s h).log = l ++ s.log ∧ ∀ x, LogEntry.limit mi x true ∉ l :=
   no_completion_no_decrement ρ mi h s hno
 
+/-! ### the monitor on the model's own log -/
+
+/-- **The monitor's log walk accepts the model's log of every fault-free call.** For every machine
+    set, oracle, batch of events, time and state: if the call ends without a fault, the segment `l`
+    it adds to the ghost log (newest first), read chronologically, is accepted by `C07.checkLog`
+    started from the limits and states of the snapshot taken before the call (`LL.limOf`, `LL.stOf`:
+    the maps `C07.monitor` builds; 0 for an id without a runtime). -/
+theorem C07_log_accepted (es : List TEvent) (t : Int) (s : Fw σ) (hok : (triggerEvents ρ es t s).fault = none)
+    (l : List LogEntry) (hl : (triggerEvents ρ es t s).log = l ++ s.log) :
+    checkLog s.machines (LL.limOf s.snap) (LL.stOf s.snap) (fun _ => none) l.reverse = none :=
+  LL.call_accepted ρ es t s hok l hl _
+
+/-- the decrement rule in plain terms. In the chronological log of a fault-free call, at a decrement
+    entry `limit mi v true` (`f` = the limits and states the monitor tracks up to that point:
+    the snapshot before the call, updated by the limit entries and sampled states of the prefix):
+    `v` is the tracked limit minus one (0 stays 0), and the entry is IMMEDIATELY followed by the
+    LimitReached delivery to `mi` exactly when `v = 0` and the action of `mi`'s tracked state
+    carries a limit. -/
+theorem C07_log_decrement_exact (es : List TEvent) (t : Int) (s : Fw σ) (hok : (triggerEvents ρ es t s).fault = none)
+    (l : List LogEntry) (hl : (triggerEvents ρ es t s).log = l ++ s.log)
+    (pre rest : List LogEntry) (mi v : Nat) (hsplit : l.reverse = pre ++ .limit mi v true :: rest) :
+    v = (if (LL.after (LL.limOf s.snap, LL.stOf s.snap) pre).1 mi > 0
+          then (LL.after (LL.limOf s.snap, LL.stOf s.snap) pre).1 mi - 1 else 0) ∧
+    ((∃ st rest', rest = .trans mi Gen.EV_LimitReached st :: rest') ↔
+      (v = 0 ∧ hasLimitAt s.machines mi ((LL.after (LL.limOf s.snap, LL.stOf s.snap) pre).2 mi) = true)) := by
+  have h := C07_log_accepted ρ es t s hok l hl
+  rw [hsplit] at h
+  obtain ⟨h1, h2, _⟩ := LL.checkLog_limitT_none _ _ _ _ mi v rest (LL.checkLog_split _ pre _ _ _ _ h)
+  refine ⟨h1, ?_⟩
+  rw [← LL.nextLR_iff, h2]
+  simp
+
+/-- the resampling rule in plain terms. In the chronological log of a fault-free call, a sampled
+    regular state `next` of machine `mi` is IMMEDIATELY followed by the assignment of a fresh limit
+    to `mi` — directly or after exactly one distribution draw — exactly when `next` differs from the
+    state tracked for `mi` up to that point; a self-transition is never followed by one. -/
+theorem C07_log_resample_exact (es : List TEvent) (t : Int) (s : Fw σ) (hok : (triggerEvents ρ es t s).fault = none)
+    (l : List LogEntry) (hl : (triggerEvents ρ es t s).log = l ++ s.log)
+    (pre rest : List LogEntry) (mi ev next : Nat) (hsplit : l.reverse = pre ++ .sampled mi ev next :: rest)
+    (hreg : isRegular next = true) :
+    ((∃ x rest', rest = .limit mi x false :: rest') ∨ (∃ b x rest', rest = .distRaw b :: .limit mi x false :: rest')) ↔
+      next ≠ (LL.after (LL.limOf s.snap, LL.stOf s.snap) pre).2 mi := by
+  have h := C07_log_accepted ρ es t s hok l hl
+  rw [hsplit] at h
+  have h1 := (LL.checkLog_sampled_none _ _ _ _ mi ev next rest (LL.checkLog_split _ pre _ _ _ _ h)).1 hreg
+  rw [← LL.followsB_iff, h1]
+  simp
+
+/-- rule 2 of the monitor, per call (no hypothesis at all): the call's log holds at most as many
+    decrements of `j`'s limit as the call reports completions for `j` -/
+theorem C07_log_own_completions (j : Nat) (es : List TEvent) (t : Int) (s : Fw σ)
+    (l : List LogEntry) (hl : (triggerEvents ρ es t s).log = l ++ s.log) :
+    decrements j l.reverse ≤ completions j es :=
+  LL.decrements_le_call ρ j es t s l hl
+
+/-- rule 3 of the monitor: a single-event call reporting a completion (of any of the three kinds)
+    for a machine `m` that has a runtime and has not ended, ending without a fault. The part `pre`
+    of the call's chronological log before the signal round either holds no decrement of `m` and a
+    change of `m`'s state (a sampled END or a sampled regular state different from the tracked one),
+    or exactly one decrement of `m` and no change of `m`'s state before that decrement. -/
+theorem C07_log_single_completion (m : Nat) (e : TEvent)
+    (he : e = .paddingSent m ∨ e = .blockingBegin m ∨ e = .timerBegin m)
+    (t : Int) (s : Fw σ) (r : Runtime) (hr : s.rt[m]? = some r) (hne : r.currentState ≠ STATE_END)
+    (hok : (triggerEvents ρ [e] t s).fault = none)
+    (l : List LogEntry) (hl : (triggerEvents ρ [e] t s).log = l ++ s.log) :
+    (decrements m (beforeSignals l.reverse) = 0 ∧ changedState m r.currentState (beforeSignals l.reverse) = true) ∨
+    (decrements m (beforeSignals l.reverse) = 1 ∧
+      changedState m r.currentState ((beforeSignals l.reverse).takeWhile (LL.notDec m)) = false) :=
+  LL.ruleC_call ρ m e he t s r hr hne hok l hl
+
+/-- rule 4 of the monitor (`LL.badAct` is its test): in a state satisfying the slot invariant, no
+    returned action is of a limitable kind for a machine whose limit was 0 before the call and
+    whose limit the call's log never touches -/
+theorem C07_log_no_limited_action (es : List TEvent) (t : Int) (s : Fw σ) (hI : Inv04 s)
+    (l : List LogEntry) (hl : (triggerEvents ρ es t s).log = l ++ s.log)
+    (a : TAction) (ha : a ∈ (triggerEvents ρ es t s).actionsOut) :
+    LL.badAct (LL.limOf s.snap) l.reverse a = false :=
+  LL.no_limited_action ρ es t s hI l hl a ha
+
+/-- the slot invariant holds after `Framework::new` and is preserved by every call -/
+theorem C07_slot_invariant (ms : List Machine) (fp fb : F64) (t0 : Int) (rng : σ) :
+    Inv04 (Fw.init ρ ms fp fb t0 rng) ∧
+    ∀ (s : Fw σ), Inv04 s → ∀ es t, Inv04 (triggerEvents ρ es t s) :=
+  ⟨Inv04.init ρ ms fp fb t0 rng, fun s hI es t => hI.run (triggerEvents_run ρ es t s)⟩
+
+/-- **`C07.monitor` accepts the model's own trace of every history**: for every machine set,
+    configuration, oracle and history of calls, the monitor applied to the trace of the model
+    (`LL.modelTrace`: the records the driver builds — events, outcome, returned actions, snapshot and
+    the call's log) reports no violation. -/
+theorem C07_monitor_accepts_model (ms : List Machine) (fp fb : F64) (t0 : Int) (rng : σ) (h : List Call) :
+    monitor (LL.modelTrace ρ ms fp fb t0 rng h) = none :=
+  LL.monitor_model ρ ms fp fb t0 rng h
+
 /-! ### Non-vacuity: the hypotheses are satisfiable and the model computes what the theorems say -/
 
 section Demo
@@ -533,5 +651,55 @@ example : ((runCalls demoρ demoS [([.paddingSent 1], 10), ([.timerBegin 7], 20)
       ([.blockingBegin 0], 40)]).rt.map (·.stateLimit)) = [2, 1] := by decide
 
 end Demo
+
+section MonitorDemo
+
+private def dZero : Dist := { dist := .uniform 0 0, start := 0, max := 0 }
+/-- the constant 2.0 -/
+private def dTwo : Dist := { dist := .uniform 4611686018427387904 4611686018427387904, start := 0, max := 0 }
+/-- state 0: no action; NormalSent leads to state 1 with probability 1 -/
+private def mSt0 : State :=
+  { action := none, counterA := none, counterB := none,
+    transitions := (List.replicate 13 none).set 3 (some [{ target := 1, prob := 1065353216 }]) }
+/-- state 1: UpdateTimer with a limit of 2; LimitReached leads back to state 0 -/
+private def mSt1 : State :=
+  { action := some (.updateTimer false dZero (some dTwo)), counterA := none, counterB := none,
+    transitions := (List.replicate 13 none).set 8 (some [{ target := 0, prob := 1065353216 }]) }
+private def mM : Machine :=
+  { allowedPaddingPackets := 0, maxPaddingFrac := 0, allowedBlockedMicrosec := 0, maxBlockingFrac := 0,
+    states := [mSt0, mSt1] }
+private def mρ : Oracle Unit := { u := fun _ => (0, ()), d := fun _ _ => (0, ()) }
+private def mTrace : FwTrace :=
+  LL.modelTrace mρ [mM] 0 0 0 () [([.normalSent], 10), ([.timerBegin 0], 20), ([.timerBegin 0], 30), ([.timerBegin 0], 40)]
+
+/-- Non-vacuity of `C07_monitor_accepts_model`: no call faults (the monitor walks all four), and the
+    logs hold a resampling after the draw of the limit distribution, two decrements, the
+    LimitReached delivery (event 8) right after the decrement to 0, and a resampling without a draw. -/
+example : mTrace.calls.map (·.res) = [.ok, .ok, .ok, .ok] ∧
+    mTrace.calls.map (·.log) =
+      [[.trans 0 3 0, .draw 0, .sampled 0 3 1, .distRaw 4611686018427387904, .limit 0 2 false, .counter 0 0 0 0 0,
+        .distRaw 0],
+       [.trans 0 10 1, .limit 0 1 true],
+       [.trans 0 10 1, .limit 0 0 true, .trans 0 8 1, .draw 0, .sampled 0 8 0, .limit 0 18446744073709551615 false,
+        .counter 0 0 0 0 0],
+       [.trans 0 10 0, .limit 0 18446744073709551614 true]] ∧
+    mTrace.calls.map (·.actions) = [[.updateTimer 0 false 0], [], [], []] ∧
+    monitor mTrace = none := by decide +kernel
+
+/-- Non-vacuity of the rules of `checkLog` (machine in state 1 with limit 1 / state 0): a change of
+    state without a resampling, a refreshed self-transition, a wrong decrement, a decrement to 0
+    without LimitReached and a LimitReached delivery above 0 are all rejected; the model's third
+    call is accepted. -/
+example :
+    (checkLog [mM] (fun _ => 0) (fun _ => 0) (fun _ => none) [.sampled 0 3 1, .counter 0 0 0 0 0]).isSome = true ∧
+    (checkLog [mM] (fun _ => 1) (fun _ => 1) (fun _ => none) [.sampled 0 3 1, .limit 0 2 false]).isSome = true ∧
+    (checkLog [mM] (fun _ => 2) (fun _ => 1) (fun _ => none) [.limit 0 0 true, .trans 0 8 1]).isSome = true ∧
+    (checkLog [mM] (fun _ => 1) (fun _ => 1) (fun _ => none) [.limit 0 0 true]).isSome = true ∧
+    (checkLog [mM] (fun _ => 2) (fun _ => 1) (fun _ => none) [.limit 0 1 true, .trans 0 8 1]).isSome = true ∧
+    checkLog [mM] (fun _ => 1) (fun _ => 1) (fun _ => none)
+      [.trans 0 10 1, .limit 0 0 true, .trans 0 8 1, .draw 0, .sampled 0 8 0, .limit 0 18446744073709551615 false,
+       .counter 0 0 0 0 0] = none := by decide +kernel
+
+end MonitorDemo
 
 end Mb.C07
